@@ -41,16 +41,22 @@ Record vcap : Set := mkVcap { vc_pt : Z; vc_rtx : option Z }.
 Record config : Set := mkCfg {
   c_mode : mode; c_legacy : bool; c_mux : bool; c_audio : list codec; c_video : list vcap }.
 
-Record osec : Set := mkOsec {
+(* o_port / o_bonly: the port of the m= line and the presence of a=bundle-only (a port-0 m-line without
+   bundle-only is a rejected / disabled stream, RFC 3264 5.1, 8.2) *)
+Record osec : Set := mkOsecP {
   o_kind : kind; o_mid : string; o_dir : dir; o_pts : list Z; o_codecs : list codec;
-  o_apt : list (Z * Z); o_ext : list (Z * uri); o_mux : bool; o_setup : option string }.
+  o_apt : list (Z * Z); o_ext : list (Z * uri); o_mux : bool; o_setup : option string;
+  o_port : Z; o_bonly : bool }.
+Definition mkOsec k m d pts codecs apt ext mux setup : osec := mkOsecP k m d pts codecs apt ext mux setup default_port false.
 
 (* f_groups: the mid lists of the a=group:BUNDLE lines *)
 Record offer : Set := mkOffer { f_groups : list (list string); f_sess_setup : option string; f_secs : list osec }.
 
+(* a_port: the port of the answered m= line where the model determines it (WebRTC mode: the constant of
+   MediaSection::new, whatever the offered port was); None = a local socket port (RTP / SDES modes) *)
 Record asec : Set := mkAsec {
   a_kind : kind; a_mid : string; a_dir : dir; a_proto : string; a_pts : list Z;
-  a_apt : list (Z * Z); a_ext : list (Z * uri); a_mux : bool; a_setup : option string }.
+  a_apt : list (Z * Z); a_ext : list (Z * uri); a_mux : bool; a_setup : option string; a_port : option Z }.
 
 Record answer : Set := mkAnswer { a_group : option (list string); a_secs : list asec }.
 
@@ -287,7 +293,8 @@ Definition build_sec (c : config) (s : st) (remote : list osec) (t : trx) (sec :
         end in
       Some (mkAsec k m (ans_dir t remote m) (ans_proto c k) pts apt (ans_ext c k remote m)
                    (is_rtp_kind k && c_mux c && negb (c_legacy c) && o_mux sec)
-                   (ans_setup c (s_role s)))
+                   (ans_setup c (s_role s))
+                   (match c_mode c with MWebRtc => Some default_port | _ => None end))
   end.
 
 Fixpoint build_secs (c : config) (s : st) (remote : list osec) (idx : list nat) (secs : list osec) : option (list asec) :=
@@ -305,7 +312,7 @@ Fixpoint build_secs (c : config) (s : st) (remote : list osec) (idx : list nat) 
   end.
 
 Definition clear_mid (a : asec) : asec :=
-  mkAsec (a_kind a) EmptyString (a_dir a) (a_proto a) (a_pts a) (a_apt a) (a_ext a) (a_mux a) (a_setup a).
+  mkAsec (a_kind a) EmptyString (a_dir a) (a_proto a) (a_pts a) (a_apt a) (a_ext a) (a_mux a) (a_setup a) (a_port a).
 
 (* since ca1331b an answer echoes an offered BUNDLE group in every compatibility mode (LegacySip only
    keeps the stack from proposing a group in its own offers) *)
@@ -382,6 +389,11 @@ Definition v_sec_setup (sess : option string) (o : osec) (a : asec) : bool :=
       match orelse (o_setup o) sess with Some v => setup_ok v s | None => true end
   end.
 
+(* RFC 3264 section 6: a stream offered with port zero (and not bundle-only) MUST be answered with port zero *)
+Definition rejected (o : osec) : bool := (o_port o =? 0) && negb (o_bonly o).
+Definition v_sec_port (o : osec) (a : asec) : bool :=
+  if rejected o then match a_port a with Some p => p =? 0 | None => true end else true.
+
 Fixpoint forall2b {A B} (f : A -> B -> bool) (l1 : list A) (l2 : list B) : bool :=
   match l1, l2 with
   | [], [] => true
@@ -397,7 +409,7 @@ Definition v_bundle (o : offer) (a : answer) : bool :=
 
 Definition valid_answer (o : offer) (a : answer) : bool :=
   forall2b (fun x y => v_sec_struct x y && v_sec_pts x y && v_sec_rtx x y && v_sec_ext x y && v_sec_mux x y
-                       && v_sec_dir x y && v_sec_setup (f_sess_setup o) x y) (f_secs o) (a_secs a)
+                       && v_sec_dir x y && v_sec_setup (f_sess_setup o) x y && v_sec_port x y) (f_secs o) (a_secs a)
   && v_bundle o a.
 
 (* ------------------------------------------------------------------ boolean equality (model runner) *)
@@ -413,6 +425,6 @@ Definition asec_eqb (x y : asec) : bool :=
   kind_eqb (a_kind x) (a_kind y) && String.eqb (a_mid x) (a_mid y) && dir_eqb (a_dir x) (a_dir y)
   && String.eqb (a_proto x) (a_proto y) && list_eqb Z.eqb (a_pts x) (a_pts y)
   && list_eqb pair_eqb (a_apt x) (a_apt y) && list_eqb ext_eqb (a_ext x) (a_ext y)
-  && Bool.eqb (a_mux x) (a_mux y) && opt_eqb String.eqb (a_setup x) (a_setup y).
+  && Bool.eqb (a_mux x) (a_mux y) && opt_eqb String.eqb (a_setup x) (a_setup y) && opt_eqb Z.eqb (a_port x) (a_port y).
 Definition answer_eqb (x y : answer) : bool :=
   opt_eqb (list_eqb String.eqb) (a_group x) (a_group y) && list_eqb asec_eqb (a_secs x) (a_secs y).
